@@ -328,6 +328,11 @@ var failKinds = []failKind{
 	{"before-value-joined-with-unquoted-value-range", `<a title={{range .N}}x{{end}} class="{{.S}}">y</a>`},
 	{"ambiguous-url-prefix-else-if", `<a href="{{if .N}}/path/{{else if .S}}/path/{{else}}/search?q={{end}}{{.S}}">x</a>`},
 	{"ambiguous-url-prefix-nested", `<a href="{{if .N}}{{else}}{{if .S}}{{else}}javascript:{{end}}{{end}}{{.S}}">x</a>`},
+	{"nontext-end-in-comment", `Hello <!-- unterminated`},
+	{"nontext-end-in-comment-after-action", `<b>{{.S}}</b><!-- TODO {{.S}}`},
+	{"nontext-end-in-raw-text", `<script>foo()`},
+	{"nontext-end-in-rcdata", `<textarea>{{.S}}`},
+	{"conditional-rel", `<link {{if .S}}rel="stylesheet"{{else}}rel="icon"{{end}} href="{{.S}}">`},
 	{"else-if-chain-attribute-names-2", `<a {{if .N}}title{{else if .S}}href{{else}}title{{end}}="{{.S}}">x</a>`},
 }
 
